@@ -60,10 +60,9 @@ def inst_from_tlc(j):
     nodes = list(j['nodes'])
     if isinstance(j['nbrs'], dict):
         nbrs = {int(k): list(v) for k, v in j['nbrs'].items()}
-    elif j['nbrs'] and isinstance(j['nbrs'][0], list) and len(j['nbrs'][0]) == 2 and isinstance(j['nbrs'][0][1], list) \
-            and not isinstance(j['nbrs'][0][0], list) and 'tab' in j and 'skip' in j['tab'][0]:
+    elif j['tab'] and 'skip' in j['tab'][0]:        # Inst.to_json format: [[node, [nbr...]]...]
         nbrs = {n: list(v) for n, v in j['nbrs']}
-    else:
+    else:                                           # TLC: function over 1..N printed as a sequence
         nbrs = {i + 1: list(v) for i, v in enumerate(j['nbrs'])}
     tab, linked, skip = {}, {}, {}
     for row in j['tab']:
@@ -249,10 +248,10 @@ def proj_lattice(m):
     return out
 
 
-def run_history(inst, cf, ops, unique=False, snapshots=True):
+def run_history(inst, cf, ops, unique=False, snapshots=True, matcher=None):
     """ops: list of (op, arg).  Returns list of observation dicts (one per op)."""
     cf = dict(cf)
-    m = mk_matcher(inst, cf)
+    m = matcher if matcher is not None else mk_matcher(inst, cf)
     out = []
     for op, arg in ops:
         o = {'op': op, 'arg': arg, 'exc': ''}
